@@ -568,6 +568,133 @@ def lite_replay(sx, lite_s, read_block):
     return [lite_s, r2]
 
 
+def lite_forged_after_failed(sx, lite_s, prior_good, blocks):
+    """two-step history: [authenticate(p) with the tag's password,]
+    authenticate(q) with another password fails; then an adversary who knows
+    q and saw the clear-text challenge answers read_with_mac(blocks) with
+    arbitrary data and a MAC under the session key derived from q and that
+    challenge (modelled as a counterfeit tag holding the key of q that was
+    given the same RC block).  The data must not be returned: the reader has
+    no session (RuntimeError) or still verifies under the last good one."""
+    pfx = "lites" if lite_s else "lite"
+    p = sx.bytes("p", 16)
+    sim, tag = lite_tag(sx, lite_s, ck_block(p), {0x82: list(sx.bytes("tag.id", 16))})
+    if prior_good:
+        if not sx.truth(sx.eq(tag.authenticate(p), True)):
+            sx.check(False, pfx + ":authenticate-false-with-tag-key")
+    q = sx.bytes("q", 16)
+    r = tag.authenticate(q)
+    if not is_bool(r):
+        sx.check(False, pfx + ":authenticate-returns-non-bool")
+    if sx.truth(r):
+        # q is the tag's password after all: nothing to forge
+        sx.check(sx.eq(q, p), pfx + ":authenticate-true-with-other-key")
+        return "same-key"
+    sx.check(sx.eq(tag.is_authenticated, False), pfx + ":is_authenticated-differs")
+    forged = dict((b, list(sx.bytes("forged%02x" % b, 16))) for b in sorted(set(blocks)))
+    adversary = LiteSim(sim.cipher, lite_s, ck_block(q), forged)
+    adversary.rc = list(sim.rc)         # the challenge went over the air in clear
+    adversary.max_blocks = 15
+    tag.clf.sim = adversary
+    try:
+        got = tag.read_with_mac(*blocks)
+    except RuntimeError:
+        sx.check(not prior_good, pfx + ":RuntimeError-although-a-session-exists")
+        sx.reach(pfx + ":no-session-after-failed-authentication")
+        return "RuntimeError"
+    except Type3TagCommandError:
+        got = None
+    sx.check(got is None, pfx + ":data-returned-under-key-of-failed-authentication")
+    sx.reach(pfx + ":forged-read-refused")
+    return [lite_s, prior_good, got is None]
+
+
+def lite_read_multi(sx, lite_s, blocks, lenient):
+    """read_with_mac of 1..6 blocks; the tag serves up to 4 blocks per
+    command incl. the MAC block (lenient: up to 15).  However many commands
+    the reader sends, one 16-byte block (data or MAC) of ONE of the responses
+    is replaced in transit by arbitrary bytes (lazily chosen response and
+    block; or none).  Data is returned only if every response it was taken
+    from carries a MAC that verifies over that response's data."""
+    pfx = "lites" if lite_s else "lite"
+    p = sx.bytes("p", 16)
+    content = dict((b, list(sx.bytes("tag.blk%02x" % b, 16))) for b in sorted(set(blocks)))
+    sim, tag = lite_tag(sx, lite_s, ck_block(p), content)
+    if lenient:
+        sim.max_blocks = 15
+    if not sx.truth(sx.eq(tag.authenticate(p), True)):
+        sx.check(False, pfx + ":authenticate-false-with-tag-key")
+    state = dict(k=0, done=False, pairs=[])
+
+    def tamper(sim, cmd, rsp):
+        k = state['k']
+        state['k'] += 1
+        seen = rsp
+        ok = len(rsp) >= 13 + 32 and (len(rsp) - 13) % 16 == 0 and rsp[10] == 0
+        if ok and not state['done'] and \
+                sx.truth(sx.flag("air.tamper_response_%d" % k)):
+            state['done'] = True
+            nblk = (len(rsp) - 13) // 16
+            j = sx.pick("air.block", list(range(nblk)))
+            state['where'] = "mac" if j == nblk - 1 else "data"
+            pos = 13 + 16 * j
+            seen = sx.mkbytes(list(rsp[0:pos]) + list(sx.bytes("air", 16)) +
+                              list(rsp[pos + 16:]))
+        if ok:
+            state['pairs'].append((list(rsp), list(seen)))
+        return seen
+    sim.tamper = tamper
+    try:
+        got = tag.read_with_mac(*blocks)
+    except Type3TagCommandError:
+        # the real tag refuses more than four blocks in one command
+        sx.check(not lenient and sim.history[-1][1][10] != 0,
+                 pfx + ":read_with_mac-TagCommandError-without-tag-error")
+        sx.reach(pfx + ":too-many-blocks-refused-by-tag")
+        return "TagCommandError"
+    if not state['pairs']:
+        sx.check(False, pfx + ":read_with_mac-without-reading")
+    truth = []
+    for b in blocks:
+        truth += content[b]
+    seen_all, checks = [], []
+    untouched = True
+    for sent, seen in state['pairs']:
+        n = (len(seen) - 13) // 16 - 1
+        data, mac = seen[13:13 + 16 * n], seen[13 + 16 * n:21 + 16 * n]
+        seen_all += data
+        good = sim.mac([data[i:i + 16] for i in range(0, 16 * n, 16)])
+        checks.append(sx.eq(sx.mkbytes(mac), sx.mkbytes(good)))
+        untouched = sx.all([untouched, sx.eq(sx.mkbytes(seen[13:]), sx.mkbytes(sent[13:]))])
+    verifies = sx.all(checks)
+    if got is None:
+        sx.reach(pfx + ":multi-read-refused")
+    else:
+        sx.reach(pfx + ":multi-read-returned")
+        sx.check(same(sx, got, sx.mkbytes(seen_all)),
+                 pfx + ":returned-data-differs-from-received-data")
+    sx.check(sx.implies(got is not None, verifies),
+             pfx + ":data-returned-although-mac-does-not-verify")
+    sx.check(sx.implies(verifies, got is not None),
+             pfx + ":data-refused-although-mac-verifies")
+    sx.check(sx.implies(untouched, got is not None), pfx + ":untouched-response-refused")
+    if got is not None:
+        sx.check(sx.implies(untouched, same(sx, got, sx.mkbytes(truth))),
+                 pfx + ":returned-data-differs-from-tag-memory")
+    if state['done'] and state['where'] == "mac":
+        # (the eight padding octets behind the MAC are not protected)
+        mac_modified = sx.any([
+            sx.neg(sx.eq(sx.mkbytes(seen[len(seen) - 16:len(seen) - 8]),
+                         sx.mkbytes(sent[len(sent) - 16:len(sent) - 8])))
+            for sent, seen in state['pairs']])
+        sx.check(sx.implies(mac_modified, got is None), pfx + ":modified-mac-accepted")
+    if state['done'] and state['where'] == "data":
+        # one data block replaced, MACs untouched: one or two 8-byte halves
+        # changed; the general statement is the "verifies" pair above
+        sx.reach(pfx + ":multi-read-data-block-replaced")
+    return [lite_s, len(blocks), len(state['pairs']), got is not None]
+
+
 def lite_protect(sx, lite_s, plen, qlen, protect_from, pwtype):
     """protect(p) on a factory tag, then authenticate(q)"""
     pfx = "lites" if lite_s else "lite"
@@ -694,6 +821,24 @@ def partitions(tier):
         parts.append(dict(name="lite-replay:%d:%s" % (lite_s, blk),
                           fn="lite_replay",
                           params=dict(lite_s=lite_s, read_block=blk)))
+    for lite_s, good in ([(0, 0), (0, 1), (1, 0), (1, 1)]):
+        parts.append(dict(name="lite-forged:%d:%d" % (lite_s, good),
+                          fn="lite_forged_after_failed",
+                          params=dict(lite_s=lite_s, prior_good=good,
+                                      blocks=[1] if quick or lite_s else [1, 2])))
+    # (on the unchanged tree four data blocks are one command, which the
+    # real tag refuses: cheap; the lenient tag and the other sizes cost many
+    # cipher calls and run in the thorough tier)
+    multi = [(0, [1, 2, 3, 4], 0)]
+    if not quick:
+        multi += [(0, [1, 2, 3, 4], 1), (0, [1], 0), (0, [1, 2], 1), (0, [1, 2, 3], 0), (0, [1, 2, 3, 4, 5], 0),
+                  (0, [1, 2, 3, 4, 5], 1), (0, [1, 2, 3, 4, 5, 6], 1),
+                  (1, [1, 2, 3, 4], 0), (1, [1, 2, 3, 4], 1)]
+    for lite_s, blocks, lenient in multi:
+        parts.append(dict(name="lite-multi:%d:%d:%s" % (lite_s, len(blocks),
+                                                       "lenient" if lenient else "strict"),
+                          fn="lite_read_multi",
+                          params=dict(lite_s=lite_s, blocks=blocks, lenient=lenient)))
     for lite_s in (0, 1):
         parts.append(dict(name="lite-ndef-tamper:%d" % lite_s,
                           fn="lite_ndef_tamper", params=dict(lite_s=lite_s)))
@@ -719,12 +864,12 @@ def partitions(tier):
             fn="lite_protect", params=dict(lite_s=lite_s, plen=plen, qlen=qlen,
                                            protect_from=pf, pwtype=pwtype)))
     # the cipher partitions are the long ones: start them first
-    parts.sort(key=lambda p: (0 if p['fn'] == "lite_read" else
+    parts.sort(key=lambda p: (0 if p['fn'] in ("lite_read", "lite_read_multi") else
                               1 if p['fn'].startswith("lite") else 2))
     return parts
 
 
-MUST_REACH = [
+_REACH = [
     "ntag:authenticated", "ntag:refused", "ntag:short-password-rejected",
     "ntag:protect-short-password-rejected", "ntag:protected",
     "ntag:second-accepted", "ntag:second-refused", "ntag:pack-answer-replaced",
@@ -741,7 +886,15 @@ MUST_REACH = [
     "lites:protected", "lites:second-accepted", "lites:second-refused",
     "lites:written", "lites:write-refused",
     "lite:replay-refused", "lites:replay-refused",
+    "lite:no-session-after-failed-authentication", "lite:forged-read-refused",
+    "lites:no-session-after-failed-authentication", "lites:forged-read-refused",
+    "lite:too-many-blocks-refused-by-tag",
 ]
+MUST_REACH = {
+    "quick": _REACH,
+    "thorough": _REACH + ["lite:multi-read-returned", "lite:multi-read-refused",
+                          "lite:multi-read-data-block-replaced"],
+}
 BOUNDS = {
     "quick": "NTAG210/212/213/215/216 and Ultralight EV1 MF0UL11/H11/21/H21: "
     "authenticate(p) with password lengths {0,3,6,9}, bytes and bytearray, all "
